@@ -1241,6 +1241,7 @@ class MultipartWriter(Payload):
 
         # Process each part
         for part, _e, _te in self._parts:
+            compression, te_encoding = self._part_encodings(part)
             # Add boundary
             parts.append(b"--" + self._boundary + b"\r\n")
 
@@ -1249,7 +1250,17 @@ class MultipartWriter(Payload):
 
             # Add payload content using as_bytes for async safety
             part_bytes = await part.as_bytes(encoding, errors)
-            parts.append(part_bytes)
+            if compression or te_encoding:
+                # The same encodings write() applies, the headers announce them.
+                w = MultipartPayloadWriter(cast(AbstractStreamWriter, _Chunks(parts)))
+                if compression:
+                    w.enable_compression(compression)
+                if te_encoding:
+                    w.enable_encoding(te_encoding)
+                await w.write(part_bytes)
+                await w.write_eof()
+            else:
+                parts.append(part_bytes)
 
             # Add trailing CRLF
             parts.append(b"\r\n")
@@ -1315,6 +1326,16 @@ class MultipartWriter(Payload):
                     internal_logger.error(
                         "Failed to close multipart part %d: %s", idx, exc, exc_info=True
                     )
+
+
+class _Chunks:
+    """In-memory stand-in for the writer MultipartPayloadWriter writes to."""
+
+    def __init__(self, chunks: list[bytes]) -> None:
+        self._chunks = chunks
+
+    async def write(self, chunk: bytes) -> None:
+        self._chunks.append(bytes(chunk))
 
 
 class MultipartPayloadWriter:
